@@ -109,7 +109,7 @@ def main():
         "setup_cmd": "./setup.sh",
         "hooks": {"guard": "SPARSESPACE_VERIF", "enable": "checks import sparseSpACE from /repo's working tree (or VERIF_REPO); all seams (clock, PRNGs, persistence, environment callbacks, observers) are installed from the harness at run time. One guarded knob exists in /repo: with SPARSESPACE_VERIF=1 the density-estimation size threshold (literal 200 in GridOperation.py) is read from SPARSESPACE_VERIF_DE_THRESHOLD; the C17 check sets both variables in-process for the executions that need it and clears them afterwards",
                   "baseline_off_cmd": "cd /repo && /venv/bin/python -m pytest -ra -q -p no:cacheprovider --timeout=900 --continue-on-collection-errors",
-                  "source_commits": ["9788798"], "add_only": True},
+                  "source_commits": ["97887985b1757391439f768f668ee9af13e31c7c"], "add_only": True},
         "engines": [{"name": e, "path": "engines/%s.py" % e, "serves_properties": sorted(p),
                      "kind_free_text": "deterministic simulation engine (seeded schedules, fault injection, invariant monitors)"} for e, p in sorted(engines.items())],
         "checks": checks,
